@@ -23,15 +23,17 @@ import (
 // World is one simulated deployment: a provider node over SimStore, the
 // network, browsers, and a ledger of everything honest parties emitted.
 type World struct {
-	O       *kernel.Outcome
-	Tape    *kernel.Tape
-	Cfg     *kernel.Chooser
-	Store   *Store
-	Net     *Net
-	OP      *OPNode
-	Issuer  string
-	Router  string
-	Wrapped bool // router B behind the application's own op.Server type (see OPConfig.Wrapped)
+	O      *kernel.Outcome
+	Tape   *kernel.Tape
+	Cfg    *kernel.Chooser
+	Store  *Store
+	Net    *Net
+	OP     *OPNode
+	Issuer string
+	Router string
+	// AssertTimes: how hand-made assertions write iat/exp ("" numbers, "z" RFC 3339 in UTC, "zoned"/"zoned-west" RFC 3339 with an offset)
+	AssertTimes string
+	Wrapped     bool // router B behind the application's own op.Server type (see OPConfig.Wrapped)
 	// QueryKeys names form parameters that PostForm sends in the URL query instead of the body.
 	QueryKeys []string
 	CryptoKey [32]byte
@@ -138,6 +140,15 @@ func NewStd(o *kernel.Outcome, tape *kernel.Tape, opt StdOptions) (*World, error
 	w.SigAlg, w.AlgPrefix = fam.Alg, fam.Prefix
 	w.KeyN = cfg.Int(4)
 	w.Store.Keys = []*SignKey{SignKeyFromFixture(FixtureKey(fam.Prefix, w.KeyN), fam.Alg, fmt.Sprintf("sig-%d", w.KeyN))}
+	w.AssertTimes = tape.Sub("cfg-assert-times").Pick("", "", "", "z", "zoned", "zoned-west")
+	if w.AssertTimes != "" {
+		o.Probe("assertions-with-rfc3339-time-claims")
+	}
+	if tape.Sub("cfg-key-use").Bool(1, 3) {
+		// the "use" member of a published key is optional: storages whose key declares none
+		w.Store.Keys[0].Use = UseEmpty
+		o.Probe("signing-keys-published-without-a-use")
+	}
 	w.Store.AccessLifetime = time.Duration(cfg.Range(1, 10)) * time.Minute
 	w.Store.RefreshLifetime = time.Duration(cfg.Range(1, 5)) * time.Hour
 	if opt.SessionStates != nil {
@@ -344,6 +355,16 @@ func (w *World) makeClients() {
 	w.ClientKeys["jwt"] = k
 	pub := k.Public()
 	j.Key = &pub
+	// a client registered for a secret of which the storage also holds a public key (a registration on its way from one
+	// method to the other, or a key kept for request objects): the key does not change how the client authenticates
+	if w.Tape.Sub("cfg-secret-client-key").Bool(1, 2) {
+		hk := FixtureKey("rsa", 4)
+		hk.KeyID = "hyb-key-1"
+		w.ClientKeys["hyb"] = hk
+		hpub := hk.Public()
+		w.Store.Clients["hyb"].Key = &hpub
+		w.O.Probe("secret-clients-with-a-registered-key")
+	}
 	// a second client that authenticates by assertion, with a key of its own
 	j2 := mk("jwt2", op.ApplicationTypeWeb, oidc.AuthMethodPrivateKeyJWT, []string{"https://jwt2.sim/callback"})
 	k2 := FixtureKey("rsa", 3)
@@ -474,7 +495,20 @@ func (w *World) Assertion(iss, sub, kidClient string, aud []string, iat, exp tim
 	if err != nil {
 		panic(err)
 	}
-	claims := map[string]any{"iss": iss, "sub": sub, "aud": aud, "iat": iat.Unix(), "exp": exp.Unix()}
+	// the library reads time claims as numbers or as RFC 3339 strings (some providers and clients write those); the instant
+	// is the same whatever the zone it is written in
+	tv := func(t time.Time) any {
+		switch w.AssertTimes {
+		case "z":
+			return t.UTC().Format(time.RFC3339)
+		case "zoned":
+			return t.In(time.FixedZone("", 5*3600+1800)).Format(time.RFC3339)
+		case "zoned-west":
+			return t.In(time.FixedZone("", -7*3600)).Format(time.RFC3339)
+		}
+		return t.Unix()
+	}
+	claims := map[string]any{"iss": iss, "sub": sub, "aud": aud, "iat": tv(iat), "exp": tv(exp)}
 	tok, err := crypto.Sign(claims, signer)
 	if err != nil {
 		panic(err)
